@@ -72,7 +72,7 @@ func layerDirected(h *harness.H) {
 					noQuiesce.Add(1)
 				}
 				if inc != "" {
-					h.Inconclusive("directed:" + sc.name + ":" + inc)
+					h.Inconclusive("directed:" + sc.name + ":" + strings.SplitN(inc, ": ", 2)[0])
 					fmt.Printf("NOTE: directed case %d (%s) inconclusive: %s\n", j.c, sc.name, inc)
 				}
 				if t != nil {
